@@ -1,19 +1,71 @@
 ------------------------------ MODULE Trace_Conc ----------------------------
-(* Trace validation of concurrent use: every operation of a generated       *)
-(* program is first run alone (Seq), then the same operations run on many   *)
-(* goroutines on their own values (Par, ordered per goroutine by a sequence *)
-(* number); the race detector's reports of the run are Race events.         *)
-(* A program = one trace (Start resets).  "Fresh" programs run in a process *)
-(* of their own with the goroutines first and the reference afterwards, so  *)
-(* that first-use initialisation inside the library happens concurrently.   *)
-EXTENDS Integers, Sequences, FiniteSets, TLC, Json, IOUtils
+(* Trace validation of concurrent use.  A program = one trace (Start        *)
+(* resets).  Two kinds of recorded events:                                  *)
+(*                                                                         *)
+(* Pool events - what packet.Writer does with the shared buffer pool while  *)
+(* the goroutines run, reported by the verif hook in the order in which the *)
+(* pool operations could have happened ("get" after the buffer was taken,   *)
+(* "copy" after the copy-out, "put" before the buffer goes back).  Every    *)
+(* event must be an enabled step of Conc with the logged buffer: each       *)
+(* Writer is one goroutine of Conc performing one operation (Ops = 1), the  *)
+(* table exists (LazyInit = "static").  A "get" line is three steps of Conc *)
+(* (Get, Lookup, Write: the hook does not see the last two), a "put"        *)
+(* without an earlier "copy" is the error path (Fail).  The logged buffer   *)
+(* length binds the model's buffer content (PoolClean).                     *)
+(*                                                                         *)
+(* Result events - every operation of the program is run alone (Seq) and on *)
+(* many goroutines on its own values (Par, ordered per goroutine by a       *)
+(* sequence number); End carries the race detector's report count.          *)
+(* "Fresh" programs run in a process of their own with the goroutines first *)
+(* and the reference afterwards, so that first-use initialisation inside    *)
+(* the library happens concurrently.                                        *)
+EXTENDS Conc, Json, IOUtils
 
-VARIABLES l, dead, nviol, seqres, lastseq
-tvars == <<l, dead, nviol, seqres, lastseq>>
+VARIABLES l, dead, nviol, seqres, lastseq, bmap
+tvars == <<l, dead, nviol, seqres, lastseq, bmap>>
 Trace == ndJsonDeserialize(IOEnv.VERIF_TRACE)
 Empty == [x \in {} |-> 0]
-TraceInit == l = 1 /\ dead = TRUE /\ nviol = 0 /\ seqres = Empty /\ lastseq = Empty
 
+PoolLines == { i \in 1..Len(Trace) : Trace[i].ev = "Pool" }
+MaxW == IF PoolLines = {} THEN 1
+        ELSE LET ws == { Trace[i].w : i \in PoolLines } IN CHOOSE m \in ws : \A x \in ws : x <= m
+TraceG == 1..MaxW
+
+CInit ==
+  /\ pool = {} /\ buf = [b \in {} |-> <<>>] /\ nextBuf = 1 /\ table = "ready"
+  /\ gs = [g \in G |-> [pc |-> "get", k |-> 1, b |-> 0, res |-> <<>>, blind |-> FALSE, copied |-> FALSE]]
+TraceInit == CInit /\ l = 1 /\ dead = TRUE /\ nviol = 0 /\ seqres = Empty /\ lastseq = Empty /\ bmap = Empty
+
+Viol(e, tags) ==
+  /\ PrintT(<<"VIOL", e.t, l, tags>>)
+  /\ dead' = TRUE /\ nviol' = nviol + 1 /\ l' = l + 1
+  /\ UNCHANGED <<cvars, seqres, lastseq, bmap>>
+
+\* ---- pool events: steps of Conc
+Known(e) == e.b \in DOMAIN bmap
+PoolStep(e) ==
+  LET w == e.w IN
+  CASE e.op = "get" ->
+         IF gs[w].pc = "get" THEN
+           IF Known(e) /\ bmap[e.b] \notin pool
+             THEN Viol(e, {"C13.pool.buffer_shared"})            \* Get is not enabled with that buffer
+           ELSE IF (e.n = 0) # (IF Known(e) THEN buf[bmap[e.b]] = <<>> ELSE TRUE)
+             THEN Viol(e, {"C13.pool.buffer_not_clean"})         \* PoolClean, bound to the logged length
+           ELSE /\ GetBuf(w, IF Known(e) THEN bmap[e.b] ELSE nextBuf)
+                /\ bmap' = IF Known(e) THEN bmap ELSE (e.b :> nextBuf) @@ bmap
+                /\ UNCHANGED <<l, dead, nviol, seqres, lastseq>>
+         ELSE IF gs[w].pc = "lookup" THEN Lookup(w) /\ UNCHANGED tvars
+         ELSE /\ gs[w].pc = "write" /\ Write(w) /\ l' = l + 1 /\ UNCHANGED <<dead, nviol, seqres, lastseq, bmap>>
+    [] e.op = "copy" ->
+         IF gs[w].pc # "full" THEN Viol(e, {"C13.pool.use_after_release"})
+         ELSE /\ (IF gs[w].copied THEN UNCHANGED cvars ELSE Copy(w))
+              /\ l' = l + 1 /\ UNCHANGED <<dead, nviol, seqres, lastseq, bmap>>
+    [] e.op = "put" ->
+         IF ~(gs[w].pc = "full" /\ Known(e) /\ bmap[e.b] = gs[w].b) THEN Viol(e, {"C13.pool.double_release"})
+         ELSE /\ (IF gs[w].copied THEN Put(w) ELSE Fail(w))
+              /\ l' = l + 1 /\ UNCHANGED <<dead, nviol, seqres, lastseq, bmap>>
+
+\* ---- result events
 Bad(e) ==
   CASE e.ev = "Seq" -> {}
     [] e.ev = "Par" ->
@@ -24,20 +76,28 @@ Bad(e) ==
     [] e.ev = "End" -> (IF e.races # 0 THEN {"C13.data_race"} ELSE {})
                        \cup (IF e.crash THEN {"C13.process_died"} ELSE {})   \* fatal error: concurrent map access, ...
 
-Reset == Trace[l].ev = "Start" /\ dead' = FALSE /\ seqres' = Empty /\ lastseq' = Empty /\ UNCHANGED nviol
+Reset ==
+  /\ Trace[l].ev = "Start" /\ dead' = FALSE /\ seqres' = Empty /\ lastseq' = Empty /\ bmap' = Empty /\ UNCHANGED nviol
+  /\ pool' = {} /\ buf' = [b \in {} |-> <<>>] /\ nextBuf' = 1 /\ table' = "ready"
+  /\ gs' = [g \in G |-> [pc |-> "get", k |-> 1, b |-> 0, res |-> <<>>, blind |-> FALSE, copied |-> FALSE]]
+  /\ l' = l + 1
+LivePool == Trace[l].ev = "Pool" /\ ~dead /\ PoolStep(Trace[l])
 Live ==
-  /\ Trace[l].ev # "Start" /\ ~dead
+  /\ Trace[l].ev \notin {"Start", "Pool"} /\ ~dead
   /\ LET e == Trace[l] bad == Bad(e) IN
        /\ bad # {} => PrintT(<<"VIOL", e.t, l, bad>>)
        /\ dead' = (bad # {})
        /\ nviol' = nviol + (IF bad # {} THEN 1 ELSE 0)
        /\ seqres' = IF e.ev = "Seq" THEN (e.op :> e.res) @@ seqres ELSE seqres
        /\ lastseq' = IF e.ev = "Par" THEN (e.g :> e.i) @@ lastseq ELSE lastseq
-Skip == Trace[l].ev # "Start" /\ dead /\ UNCHANGED <<dead, nviol, seqres, lastseq>>
+  /\ l' = l + 1 /\ UNCHANGED <<cvars, bmap>>
+Skip == Trace[l].ev # "Start" /\ dead /\ l' = l + 1 /\ UNCHANGED <<cvars, dead, nviol, seqres, lastseq, bmap>>
 
 TraceNext ==
-  \/ /\ l <= Len(Trace) /\ (Reset \/ Live \/ Skip) /\ l' = l + 1
+  \/ /\ l <= Len(Trace) /\ (Reset \/ LivePool \/ Live \/ Skip)
   \/ /\ l = Len(Trace) + 1 /\ PrintT(<<"DONE", Len(Trace), nviol>>) /\ l' = l + 1
-     /\ UNCHANGED <<dead, nviol, seqres, lastseq>>
-TraceSpec == TraceInit /\ [][TraceNext]_tvars
+     /\ UNCHANGED <<cvars, dead, nviol, seqres, lastseq, bmap>>
+TraceSpec == TraceInit /\ [][TraceNext]_<<cvars, tvars>>
+\* what TLC proves for Conc (MC_Conc*.cfg) is re-checked on the states the real run drives the model through
+TraceInv == dead \/ (HeldNotPooled /\ PoolClean)
 =============================================================================
